@@ -434,6 +434,7 @@ battery! {
     "VecHdrOpt" => Vec<HdrOpt>, "VecWithAttr" => Vec<WithAttr>, "VecTwoAttrs" => Vec<TwoAttrs>, "VecBodyNest" => Vec<BodyNest>,
     "VecBodyStr" => Vec<BodyStr>, "VecShape" => Vec<Shape>, "VecOpSI" => Vec<Op<String, i32>>, "VecTagField" => Vec<TagField>,
     "VecTup" => Vec<Tup>, "VecOpt" => Vec<Opt>, "MapShape" => HashMap<String, Shape>,
+    "VecAttrVec" => Vec<AttrVec>, "VecAttrMap" => Vec<AttrMap>,
 }
 
 fn run_case(case: &J) -> J {
